@@ -121,6 +121,16 @@ def check(run, prog, tier):
                     cur = field_of(idx)
                     if cur:
                         uses.append((f, b, i, n, arr, cur, post))
+    # `memset (ip->ARR + ip->CUR, 0, ..)` writes the terminator at ARR[CUR]: the same kind of use as a subscript
+    for f in funcs:
+        for b, i, n in f.calls():
+            if n.get("fn") in ("memset", "__builtin_memset") and n.get("args"):
+                a0 = strip(n["args"][0])
+                if a0.get("k") == "Bin" and a0.get("op") == "+":
+                    arr = field_of(a0["L"])
+                    cur = field_of(a0["R"])
+                    if arr and arr in ext and cur:
+                        uses.append((f, b, i, n, arr, cur, False))
     cursors = sorted({u[5] for u in uses})
     run.need("sb_pos" in cursors, "sb_buf[sb_pos] uses")
     for cur in cursors:
